@@ -120,8 +120,9 @@ class Ctx(object):
             try:
                 mod.run_unit(self, u)
             except Exception:
+                # a harness exception makes the run inconclusive, but what the unit observed before it is still reported
+                # (a violation found before the exception must not be lost with it)
                 self._emit({'e': 'err', 'i': i, 'msg': traceback.format_exc()})
-                continue
             if self._hbuf:
                 os.write(self.hfd, b''.join(self._hbuf))
             calls = {k: v - before.get(k, 0) for k, v in self.lib.calls.items() if v - before.get(k, 0)}
